@@ -464,7 +464,7 @@ static inline bool parse_double_fast(int64_t mantissa, int64_t exponent, bool ne
 }
 
 /**
- * Parse double from buffer.
+ * Parse double from buffer (returns false only when out of memory).
  * 
  * Format: [sign] integer [. fraction] [e/E [sign] exponent]
  * 
@@ -476,7 +476,7 @@ static inline bool parse_double_fast(int64_t mantissa, int64_t exponent, bool ne
  * 
  * Skips underscores if EDN_ENABLE_EXPERIMENTAL_EXTENSION is enabled.
  */
-static double parse_double_from_buffer(const char* start, const char* end) {
+static bool parse_double_from_buffer(const char* start, const char* end, double* out) {
     const char* ptr = start;
     bool negative = false;
 
@@ -572,7 +572,8 @@ static double parse_double_from_buffer(const char* start, const char* end) {
     /* Try Clinger fast path (90% of cases) */
     double result;
     if (digit_count <= 15 && parse_double_fast(mantissa, exponent, negative, &result)) {
-        return result;
+        *out = result;
+        return true;
     }
 
     /* Fall back to strtod() for edge cases */
@@ -587,7 +588,7 @@ static double parse_double_from_buffer(const char* start, const char* end) {
     if ((size_t) (end - start) >= sizeof(stack_buffer)) {
         buffer = malloc((size_t) (end - start) + 1);
         if (!buffer) {
-            return NAN;
+            return false; /* out of memory */
         }
     }
 
@@ -607,7 +608,8 @@ static double parse_double_from_buffer(const char* start, const char* end) {
         free(buffer);
     }
 
-    return result; /* on ERANGE: infinity or underflow to zero */
+    *out = result; /* on ERANGE: infinity or underflow to zero */
+    return true;
 #else
     /* No underscores, can use buffer directly */
     size_t len = end - start;
@@ -618,7 +620,7 @@ static double parse_double_from_buffer(const char* start, const char* end) {
     if (len >= sizeof(stack_buffer)) {
         buffer = malloc(len + 1);
         if (!buffer) {
-            return NAN;
+            return false; /* out of memory */
         }
     }
 
@@ -633,7 +635,8 @@ static double parse_double_from_buffer(const char* start, const char* end) {
         free(buffer);
     }
 
-    return result; /* on ERANGE: infinity or underflow to zero */
+    *out = result; /* on ERANGE: infinity or underflow to zero */
+    return true;
 #endif
 }
 
@@ -1005,7 +1008,11 @@ edn_value_t* edn_read_number(edn_parser_t* parser) {
     } else if (has_decimal_point || has_exponent) {
         /* Double */
         value->type = EDN_TYPE_FLOAT;
-        value->as.floating = parse_double_from_buffer(start, digits_end);
+        if (!parse_double_from_buffer(start, digits_end, &value->as.floating)) {
+            parser->error = EDN_ERROR_OUT_OF_MEMORY;
+            parser->error_message = "Out of memory converting float literal";
+            return NULL;
+        }
     } else {
         /* Try to fit in int64 */
         int64_t num;
